@@ -354,6 +354,15 @@ impl Evidence {
     }
 }
 
+/// Minimisation budget of a run: when a change breaks a property in hundreds of cases, only the
+/// first few violations are minimised (the rest are reported as found); keeps a failing quick
+/// check quick.
+pub static SHRINKS_LEFT: std::sync::atomic::AtomicI64 = std::sync::atomic::AtomicI64::new(8);
+
+pub fn may_shrink() -> bool {
+    SHRINKS_LEFT.fetch_sub(1, Ordering::Relaxed) > 0
+}
+
 /// Fold per-case digests (in case order) into one run digest; printed when VERIF_DIGEST is set
 /// (used by `sim selfcheck` to prove that a run is a pure function of the seed).
 pub fn print_run_digest(case_digests: &[String]) {
